@@ -431,4 +431,14 @@ def selftest():
         V("twin-return-stall", BASE, "if (stalls + 1) > self.total_stalls:", "if stalls >= self.total_stalls:", kind="twin"),
         V("twin-reorder-guards", RBF, "        if not vehicle:\n            return SimulationStateError(f\"{context}; vehicle not found\"), None\n        elif not base:\n            return SimulationStateError(f\"{context}; base not found\"), None",
           "        if not base:\n            return SimulationStateError(f\"{context}; base not found\"), None\n        elif not vehicle:\n            return SimulationStateError(f\"{context}; vehicle not found\"), None", kind="twin"),
-    ]
+    ] + _auto()
+
+
+def _auto():
+    from ..loader import Repo
+    from .. import autovariants as av
+    r = Repo()
+    return av.resource_variants(r, KINDS) + av.compare_variants(r, [
+        (CS, "ChargerState.increment_available_chargers"), (CS, "ChargerState.decrement_available_chargers"), (CS, "ChargerState.decrement_enqueued_vehicles"),
+        (CS, "ChargerState.has_available_charger"), (BASE, "Base.checkout_stall"), (BASE, "Base.return_stall")])
+
